@@ -45,6 +45,12 @@ def gen_case(r, tier, idx):
     B = r.randint(1, 4 if tier == "quick" else 8)
     vws = r.choice([[], [], ["nobs"], ["nrew"], ["nobs", "nrew"], ["nobs", "nrew"], ["nrew", "nobs"]])
     gamma = Fraction(r.choice([0.5, 0.875, 1.0, 0.9900000095367432]))
+    if idx % 6 == 4:
+        # rewards with a large offset and a small spread, short reward memory: the running variance of the normalised returns is tiny next to the
+        # squared mean (a merge by raw second moments cancels catastrophically in float32; the pairwise/Welford merge the property implies does not)
+        off = r.choice([256, 512, 1024])
+        rs = [[off + Fraction(r.randint(-4, 4), 8) for _ in range(L)] for _ in range(S)]
+        gamma = Fraction(0.5); vws = r.choice([["nrew"], ["nobs", "nrew"], ["nrew", "nobs"]])
     T = r.randint(8, 14) if tier == "quick" else r.randint(20, 30)
     squash_on = "sq" in ws
     fd = r.choice([0.0, 0.3, 1.0, 1.0])       # how often the agent asks for an episode end through action[1]
